@@ -502,4 +502,79 @@ func TestC07(t *testing.T) {
 		Name: "tree", Gen: genC07, Oracle: oracleC07, NonTrivial: c7NonTrivial, Classes: c7Features,
 		Budget: ev.Budget{Quick: 150, Thorough: 2500}, MinNonTrivial: 0.2,
 	})
+	// whatever happens while the output is put in place (write fails part way, the name is taken by a directory), nothing but
+	// <base>.* files and gengo.sum is created
+	ev.Search(r, ev.Sub[c7Fault]{
+		Name: "outputfault", Gen: genC07Fault, Oracle: oracleC07Fault,
+		NonTrivial: func(c c7Fault) bool { return c.DirInTheWay || c.Limit < 4096 },
+		Classes: func(c c7Fault) []string {
+			if c.DirInTheWay {
+				return []string{"output-name-is-a-directory"}
+			}
+			return []string{fmt.Sprintf("limit-%d", c.Limit)}
+		},
+		Budget: ev.Budget{Quick: 6, Thorough: 60},
+	})
+}
+
+type c7Fault struct {
+	c1Fault
+	DirInTheWay bool `json:"dirintheway,omitempty"` // <base>.g.go is a (non-empty) directory
+}
+
+func genC07Fault(t *rapid.T) c7Fault {
+	c := c7Fault{c1Fault: genC01Fault(t)}
+	if rapid.IntRange(0, 2).Draw(t, "dirintheway") == 0 {
+		c.DirInTheWay, c.Prev, c.Limit = true, false, 0
+	}
+	return c
+}
+
+func oracleC07Fault(c c7Fault) error {
+	m := modspec.Mod{Path: "example.com/wf", Go: "1.21"}
+	p := modspec.Pkg{Dir: "a", Name: "a"}
+	f := modspec.GoFile{Name: "types.go"}
+	for j := 0; j < c.NTypes; j++ {
+		f.Decls = append(f.Decls, modspec.Decl{Kind: "struct", Name: fmt.Sprintf("T%d", j), Fields: []modspec.Field{{Names: []string{"A"}, Type: "int"}}})
+	}
+	p.Files = append(p.Files, f)
+	if c.Prev {
+		p.Other = append(p.Other, modspec.File{Name: "zz_generated.g.go", Data: "package a\n\nvar _previous_g = 0\n"})
+	}
+	m.Pkgs = append(m.Pkgs, p)
+	dir := tempModule(&m)
+	defer os.RemoveAll(dir)
+	if c.DirInTheWay {
+		if err := os.MkdirAll(filepath.Join(dir, "a", "zz_generated.g.go"), 0o755); err != nil {
+			panic("harness: " + err.Error())
+		}
+		if err := os.WriteFile(filepath.Join(dir, "a", "zz_generated.g.go", "keep.txt"), []byte("x"), 0o644); err != nil {
+			panic("harness: " + err.Error())
+		}
+	}
+	before := mustSnapshot(dir)
+	text := ""
+	for d := 0; d < c.NDecls; d++ {
+		text += fmt.Sprintf("\nvar _$G_$T_%d = \"declaration number %d of this type\"\n", d, d)
+	}
+	sc := &script.Script{Name: "g", Mode: "fixed", Default: script.Action{Render: []script.Piece{{Kind: "block", Text: text}}}}
+	res, exit, stderr := script.RunChild(script.RunSpec{Dir: dir, Entrypoints: []string{"./a"}, Globals: map[string][]string{"gengo:g": {""}}, Base: "zz_generated",
+		Scripts: []*script.Script{sc}, FileSizeLimit: c.Limit}, os.TempDir())
+	if exit != 0 {
+		panic(fmt.Sprintf("harness: child run exited %d: %s", exit, clip(stderr, 800)))
+	}
+	if res.LoadErr != "" {
+		panic("harness: synthetic module does not load: " + res.LoadErr)
+	}
+	if res.Panic != "" {
+		return fmt.Errorf("Execute panics when its output cannot be put in place: %s", res.Panic)
+	}
+	for _, ch := range modspec.Diff(before, mustSnapshot(dir)) {
+		base := path.Base(ch.Path)
+		if strings.HasPrefix(base, "zz_generated.") || ch.Path == "gengo.sum" || strings.HasPrefix(ch.Path, "a/zz_generated.g.go/") {
+			continue
+		}
+		return fmt.Errorf("a run whose output could not be put in place (failed=%v, %s) left %s %s behind: not a zz_generated.* file nor gengo.sum", res.Failed, res.Err, ch.Kind, ch.Path)
+	}
+	return nil
 }
